@@ -15,7 +15,7 @@ import numpy as np
 
 import e2e
 import models as M
-from common import Check, MachineryError, main_wrapper, run_workers, worker_main
+from common import handle_crash, Check, MachineryError, main_wrapper, run_workers, worker_main
 
 
 def fd_energy(fn, h):
@@ -99,6 +99,25 @@ def check_one(job):
                 detail = {"spin": s, "direction": name, "fd": g, "analytic": ana, "est": est}
     if worst > 0 or worst != worst:
         viol.append({"site": "vmat-vs-fd:" + tag, "detail": dict(detail, cfg=cfg, excess=worst)})
+    # ---- a STACK of density matrices (pyscf passes several at once: response solvers, state-averaged methods): every member's
+    # electron count, energy and matrix must be those of the single-matrix call (whose derivative was checked above)
+    dm2 = e2e.random_dms(mol, rng, unrestricted)
+    mats = [dm, dm2] if seed % 2 else [dm2, dm]
+    try:
+        arr = np.stack(mats, axis=1 if unrestricted else 0)         # (nset, nao, nao) / (2, nset, nao, nao)
+        nb, eb, vb = fn(mol, ks.grids, ks.xc, arr.copy())
+        for i, m in enumerate(mats):
+            n1, e1, v1 = fn(mol, ks.grids, ks.xc, m.copy())
+            vbi = np.asarray(vb)[:, i] if unrestricted else np.asarray(vb)[i]
+            nbi = np.asarray(nb)[..., i] if unrestricted else np.asarray(nb)[i]
+            n += 1
+            de, dv, dn = abs(float(np.asarray(eb)[i]) - float(e1)), float(np.abs(vbi - v1).max()), float(np.abs(nbi - np.asarray(n1)).max())
+            if not (de <= 1e-10 * (1 + abs(float(e1))) and dv <= 1e-9 * (1 + scale) and dn <= 1e-10 * (1 + float(np.abs(np.asarray(n1)).max()))):
+                viol.append({"site": "stack-member-differs-from-single-call:" + tag,
+                             "detail": {"cfg": cfg, "member": i, "of": len(mats), "dE": de, "dV": dv, "dN": dn}})
+                break
+    except Exception as ex:
+        viol.append({"site": "stack-call:%s:%s" % (type(ex).__name__, tag), "detail": {"cfg": cfg, "msg": str(ex)[:300]}})
     return {"viol": viol, "n": n, "proj": proj, "tag": tag}
 
 
@@ -138,7 +157,8 @@ def main():
     results = run_workers(os.path.abspath(__file__), [[j] for j in jobs] and jobs, nproc=16, timeout=7000)
     for res in results:
         if "crash" in res:
-            raise MachineryError("worker crashed: %s\n%s" % (res["crash"], res.get("tb")))
+            handle_crash(ck, res)
+            continue
         job = jobs[res["id"]]
         c = job["cfg"]
         ck.evaluations += res["n"]
